@@ -1,7 +1,7 @@
 (* C14: unchecked indexing and memory-mapped writes always stay inside their buffers. *)
 From Coq Require Import NArith ZArith List Lia Arith.
 From KT Require Import Gen.Generated Gen.Alphabet Gen.GeneratedFacts Model.Kmer Model.Show Model.Ops Model.Rows.
-From KT Require Import Proof.KmerProof Proof.RevComp Proof.PosMap Proof.Oligo Proof.Batch Proof.RowsProof.
+From KT Require Import Model.Pipeline Proof.KmerProof Proof.RevComp Proof.PosMap Proof.Oligo Proof.Batch Proof.RowsProof Proof.LayoutProof.
 Import ListNotations.
 Open Scope N_scope.
 
@@ -64,6 +64,24 @@ Proof.
   unfold pad. rewrite Hp. destruct Hd as [-> | ->]; reflexivity.
 Qed.
 
+(* ... and every normalised row the worker formats has exactly that reserved length - kcount numbers of 8
+   characters, kcount - 1 delimiters, one line feed - for every record and every delimiter, so that placing row n
+   at header + n * row_len is the tiling proved above.  (Needs the binary64 quotient to lie in [0,1]: Flocq.) *)
+Theorem C14_every_row_has_the_reserved_length :
+  forall k delim s, (1 <= k <= 31)%nat -> Forall (fun b => 4 <= b < 256) s -> (Z.of_nat (S (length s)) < 2 ^ 53)%Z ->
+  length (oligo_row_bytes k true delim s) = Pipeline.row_len k (length delim).
+Proof.
+  intros k delim s Hk Hs Hl. apply oligo_row_length; [exact Hk| |exact Hl].
+  revert Hs. apply Forall_impl. intros b Hb. exact (table_ok_spec table_kmer table_kmer_ok b Hb).
+Qed.
+
+Theorem C14_reserved_length_is_the_layout_row_length :
+  forall k dlen, Pipeline.row_len k dlen = Batch.row_len (length (min_mer_vec k) - 1) dlen \/ min_mer_vec k = [].
+Proof.
+  intros k dlen. destruct (min_mer_vec k) as [|x t] eqn:E; [now right|left].
+  unfold Pipeline.row_len, Batch.row_len, Batch.kcount. rewrite E. cbn [length]. lia.
+Qed.
+
 (* the unsafe constructs found in the workspace's sources are exactly the inventoried ones: each is hooked
    (indexing, write_at) or modelled (C13); a new unchecked access without a hook breaks this obligation, and the
    property is then no longer shown for that site *)
@@ -82,4 +100,6 @@ Print Assumptions C14_rows_tile_the_file.
 Print Assumptions C14_rows_never_overlap.
 Print Assumptions C14_original_size_only_for_one_byte_delimiters.
 Print Assumptions C14_number_width.
+Print Assumptions C14_every_row_has_the_reserved_length.
+Print Assumptions C14_reserved_length_is_the_layout_row_length.
 Print Assumptions C14_no_uninventoried_unsafe_site.
